@@ -196,14 +196,20 @@ package grpctunnel
 //@   assigns nothing
 //@   ensures result == nil || result == errFlowControlWindowExceeded
 //@   effects event:accept
+// rclosed / rcancelled: interface-level ghost state of a receiver (monotone).
+// Abstraction: defaultReceiver.closed / .cancelled; for noFlowControlReceiver
+// both are "r.closed is closed" (close and cancel coincide there).
 //@ interface receiver.close ()
-//@   assigns nothing
+//@   assigns rclosed(recv)
+//@   ensures rclosed(recv)
 //@   effects event:receiver.close
 //@ interface receiver.cancel ()
-//@   assigns nothing
+//@   assigns rcancelled(recv)
+//@   ensures rcancelled(recv)
 //@   effects event:receiver.cancel
 //@ interface receiver.dequeue ()
 //@   assigns nothing
+//@   ensures !result1 ==> rcancelled(recv) || rclosed(recv)
 //@   effects event:dequeue
 //@ interface sender.send (data)
 //@   assigns nothing
@@ -247,7 +253,11 @@ package grpctunnel
 //@   field numSent, headers, trailers, sentHeaders, closed guarded_by writeMu
 //@   field readMu, writeMu monitor
 //@   invariant wf : svr != nil && stream != nil && sender != nil && receiver != nil && cancel != nil && ctx != nil
+//@   invariant[C01,C07] stable : @cancelafterdone rcancelled(receiver) ==> isClosed(doneOf(ctx))
 //@   invariant[C02,C13] writeMu : @hdrfirst closed ==> sentHeaders
+//@   invariant[C02]     writeMu : @hdrcleared sentHeaders ==> headers == nil
+//@   invariant[C02]     writeMu : @tlrcleared closed ==> trailers == nil
+//@   invariant[C16]     writeMu : @onereply !isServerStream ==> numSent <= 1
 
 //@ func (*tunnelServer).getStream
 //@   locks s.mu
@@ -327,3 +337,235 @@ package grpctunnel
 //@     assert[C04,C17] @ctx        descends(str.ctx, old(ctx))
 //@     assert[C14]     @cancelfn   str.cancel != nil && str.sender != nil && str.receiver != nil
 //@   nopanic[C09]
+
+// ----- server stream: frame dispatch, half-close, finish ---------------------
+
+//@ func (*tunnelServerStream).halfClose
+//@   assigns st.halfClosed, rclosed(st.receiver)
+//@   ensures[C07] @recorded atomicLoad(st.halfClosed) != nil
+//@   at call close#1
+//@     assert[C01,C07,C13] @token won(st.halfClosed)
+//@   effects nosend, nowait
+//@   nopanic[C09]
+
+//@ func (*tunnelServerStream).finishStream
+//@   locks st.svr.mu, st.writeMu
+//@   assigns st.halfClosed, cancel(st.cancel), rclosed(st.receiver)
+//@   at call removeStream#1
+//@     assert[C07,C14] @cancelfirst cancelCalled(st.cancel)
+//@     assert[C14]     @ownentry   arg1 == st.streamID && arg0 == st.svr
+//@   at call halfClose#1
+//@     assert[C07] @cause arg1 == err
+//@   at go#1
+//@     assert[C13] @notclosed !st.closed
+//@     assert[C02] @status    stat == statusOf(err)
+//@   ensures[C07,C14] @cancelled  cancelCalled(st.cancel)
+//@   ensures[C14]     @untabled   !has(st.svr.streams, st.streamID)
+//@   ensures[C07]     @halfclosed atomicLoad(st.halfClosed) != nil
+//@   ensures[C13]     @closedflag st.closed && st.sentHeaders
+//@   ensures[C13]     @oneclose   old(st.closed) ==> count("go") == 0
+//@   ensures[C13]     @closes     !old(st.closed) ==> count("go") == 1
+//@   ensures[C02]     @cleared    !old(st.closed) ==> st.headers == nil && st.trailers == nil
+//@   effects nosend, nowait
+//@   nopanic[C09]
+
+// The goroutine that puts headers-if-needed and then the close frame on the wire.
+//@ func (*tunnelServerStream).finishStream$1
+//@   requires st != nil
+//@   ghost hdrProto *tunnelpb.Metadata = nil
+//@   ghost tlrProto *tunnelpb.Metadata = nil
+//@   ghost sent int = 0
+//@   at aftercall toProto#1
+//@     ghost hdrProto = result
+//@   at aftercall toProto#2
+//@     ghost tlrProto = result
+//@   at call toProto#1
+//@     assert[C02] @hdrsrc arg0 == headers
+//@   at call toProto#2
+//@     assert[C02] @tlrsrc arg0 == trailers
+//@   at call Send#1
+//@     assert[C02,C13] @hdrframe sendHeaders && arg0.StreamId == st.streamID && arg0.Frame is *tunnelpb.ServerToClient_ResponseHeaders && as(arg0.Frame, *tunnelpb.ServerToClient_ResponseHeaders).ResponseHeaders == hdrProto
+//@     assert[C13]     @hdrfirst sent == 0
+//@     ghost sent = sent + 1
+//@   at call Send#2
+//@     assert[C02,C13] @closeframe arg0.StreamId == st.streamID && arg0.Frame is *tunnelpb.ServerToClient_CloseStream
+//@     assert[C02]     @closebody  as(arg0.Frame, *tunnelpb.ServerToClient_CloseStream).CloseStream.Status == statusProto(stat) && as(arg0.Frame, *tunnelpb.ServerToClient_CloseStream).CloseStream.ResponseTrailers == tlrProto
+//@     assert[C13]     @hdrthenclose sendHeaders ==> sent == 1
+//@   ensures[C13,C14] @bounded count("carrierSend") <= 2 && count("carrierSend") >= 1
+//@   assigns nothing
+//@   effects sends
+//@   nopanic[C09]
+
+//@ func (*tunnelServerStream).acceptClientFrame
+//@   ghost acceptErr error = nil
+//@   at aftercall accept#1
+//@     ghost acceptErr = result
+//@   at call halfClose#1
+//@     assert[C07,C13] @halfclose old(frame) is *tunnelpb.ClientToServer_HalfClose && arg1 == io.EOF
+//@   at call finishStream#1
+//@     assert[C07] @cancel old(frame) is *tunnelpb.ClientToServer_Cancel && arg1 == context.Canceled
+//@   at call updateWindow#1
+//@     assert[C05,C06] @credit old(frame) is *tunnelpb.ClientToServer_WindowUpdate && arg0 == as(old(frame), *tunnelpb.ClientToServer_WindowUpdate).WindowUpdate
+//@   at call finishStream#2
+//@     assert[C09] @unset old(frame) == nil && arg1 != nil
+//@   at call accept#1
+//@     assert[C01] @sameframe arg0 == old(frame)
+//@   at call finishStream#3
+//@     assert[C03,C06] @overrun arg1 == acceptErr && acceptErr != nil
+//@   ensures[C07,C09] @niltarget st == nil ==> count("call:finishStream") == 0 && count("call:halfClose") == 0 && count("call:accept") == 0 && count("call:updateWindow") == 0
+//@   ensures[C03]     @once      count("call:finishStream") <= 1
+//@   locks st.svr.mu, st.writeMu
+//@   assigns st.halfClosed, cancel(st.cancel), rclosed(st.receiver)
+//@   effects nilrecv-ok, nosend, nowait
+//@   nopanic[C09]
+
+// ----- server stream: writing ------------------------------------------------
+
+//@ func (*tunnelServerStream).sendHeadersLocked
+//@   requires held(st.writeMu)
+//@   requires[C13] !st.sentHeaders
+//@   ghost hdrProto *tunnelpb.Metadata = nil
+//@   at call toProto#1
+//@     assert[C02] @hdrsrc arg0 == st.headers
+//@   at aftercall toProto#1
+//@     ghost hdrProto = result
+//@   at call Send#1
+//@     assert[C02,C13] @hdrframe arg0.StreamId == st.streamID && arg0.Frame is *tunnelpb.ServerToClient_ResponseHeaders && as(arg0.Frame, *tunnelpb.ServerToClient_ResponseHeaders).ResponseHeaders == hdrProto
+//@   ensures[C02,C13] @sent st.sentHeaders && st.headers == nil
+//@   ensures[C13]     @one  count("carrierSend") == 1
+//@   assigns st.sentHeaders, st.headers
+//@   nopanic[C09]
+
+//@ func (*tunnelServerStream).setHeader
+//@   locks st.writeMu
+//@   assigns nothing
+//@   at call Join#1
+//@     assert[C02] @joined len(arg0) == 2 && arg0[0] == old(st.headers) && arg0[1] == md
+//@   ensures[C02,C13] @refuse  old(st.sentHeaders) ==> result != nil && count("call:sendHeadersLocked") == 0 && st.headers == old(st.headers) && st.sentHeaders
+//@   ensures[C13]     @sendiff count("call:sendHeadersLocked") == 1 <==> (send && !old(st.sentHeaders))
+//@   ensures[C02]     @kept    !send && !old(st.sentHeaders) && md == nil ==> st.headers == old(st.headers)
+//@   nopanic[C09]
+
+//@ func (*tunnelServerStream).SetHeader
+//@   inline
+//@ func (*tunnelServerStream).SendHeader
+//@   inline
+
+//@ func (*tunnelServerStream).setTrailer
+//@   locks st.writeMu
+//@   assigns nothing
+//@   at call Join#1
+//@     assert[C02] @joined len(arg0) == 2 && arg0[0] == old(st.trailers) && arg0[1] == md
+//@   ensures[C02] @refuse old(st.closed) ==> result != nil && st.trailers == old(st.trailers)
+//@   ensures[C02] @set    !old(st.closed) ==> result == nil
+//@   nopanic[C09]
+
+//@ func (*tunnelServerStream).SendMsg
+//@   locks st.writeMu
+//@   assigns nothing
+//@   at call send#1
+//@     assert[C02,C13] @hdrfirst   st.sentHeaders
+//@     assert[C01]     @marshalled sameSlice(arg0, b)
+//@     assert[C16]     @count      st.isServerStream || old(st.numSent) == 0
+//@     assert[C16,C13] @counted    st.numSent == old(st.numSent) + 1
+//@   ensures[C16] @guard !st.isServerStream && old(st.numSent) == 1 ==> result != nil && count("call:send") == 0 && st.numSent == old(st.numSent)
+//@   ensures[C13] @hdronce count("call:sendHeadersLocked") == 1 <==> !old(st.sentHeaders)
+
+// ----- server stream: reading ------------------------------------------------
+
+//@ func (*tunnelServerStream).readMsgLocked
+//@   requires held(st.readMu)
+//@   ghost k ghostint = 0
+//@   ghost acc ghostint = 0
+//@   ghost envSize uint32 = 0
+//@   ghost dqOK bool = true
+//@   ghost wasCancelled bool = false
+//@   at aftercall dequeue#1
+//@     ghost dqOK = result1
+//@     ghost wasCancelled = rcancelled(st.receiver)
+//@     ghost k = k + ite(result1, 1, 0)
+//@     ghost envSize = ite(result1 && result0 is *tunnelpb.ClientToServer_RequestMessage, as(result0, *tunnelpb.ClientToServer_RequestMessage).RequestMessage.Size, envSize)
+//@     ghost acc = ite(result1 && result0 is *tunnelpb.ClientToServer_RequestMessage, content(as(result0, *tunnelpb.ClientToServer_RequestMessage).RequestMessage.Data), ite(result1 && result0 is *tunnelpb.ClientToServer_MoreRequestData, cat(acc, content(as(result0, *tunnelpb.ClientToServer_MoreRequestData).MoreRequestData)), acc))
+//@   loop 1 invariant[C01,C09,C16] @assembling dqOK && ((msgLen == -1 && k == 0) || (k >= 1 && msgLen == int(envSize) && content(b) == acc && len(b) < msgLen))
+//@   loop 1 invariant[C01,C16]     @readerr    st.readErr == nil
+//@   ensures[C01,C16] @sticky    old(st.readErr) != nil ==> err == old(st.readErr) && ok && data == nil && count("call:dequeue") == 0 && st.readErr == old(st.readErr)
+//@   ensures[C01,C07] @errnodata err != nil ==> data == nil
+//@   ensures[C09,C16] @badframe  !ok ==> err != nil && isStatus(err, codes.InvalidArgument)
+//@   ensures[C01]     @message   err == nil ==> k >= 1 && len(data) == int(envSize) && content(data) == acc
+//@   ensures[C01,C16] @remember  err != nil ==> st.readErr == err
+//@   ensures[C01]     @clean     err == nil ==> st.readErr == nil
+//@   ensures[C01,C07] @endcause  !dqOK ==> err != nil && ok
+//@   ensures[C01]     @cleaneof  !dqOK && err == io.EOF ==> !wasCancelled
+//@   assigns st.readErr
+//@   nopanic[C09]
+
+//@ func (*tunnelServerStream).readMsg
+//@   locks st.readMu
+//@   ghost e1 error = nil
+//@   ghost d1 []byte = nil
+//@   ghost e2 error = nil
+//@   ghost ok2 bool = false
+//@   at aftercall readMsgLocked#1
+//@     ghost e1 = result2
+//@     ghost d1 = result0
+//@   at aftercall readMsgLocked#2
+//@     ghost e2 = result2
+//@     ghost ok2 = result1
+//@   at call readMsgLocked#2
+//@     assert[C16] @lookahead e1 == nil && !st.isClientStream
+//@   ensures[C01,C16] @first     err == nil ==> e1 == nil && sameSlice(data, d1)
+//@   ensures[C16]     @single    err == nil && !st.isClientStream ==> count("call:readMsgLocked") == 2 && e2 == io.EOF && ok2
+//@   ensures[C16]     @second    !st.isClientStream && e1 == nil && e2 == nil ==> isStatus(err, codes.InvalidArgument) && !ok && data == nil && st.readErr == err
+//@   ensures[C16]     @streaming st.isClientStream ==> count("call:readMsgLocked") == 1
+//@   ensures[C01]     @errnodata err != nil ==> data == nil
+//@   assigns nothing
+//@   nopanic[C09]
+
+//@ func (*tunnelServerStream).RecvMsg
+//@   ghost rerr error = nil
+//@   ghost rok bool = true
+//@   ghost rdata []byte = nil
+//@   at aftercall readMsg#1
+//@     ghost rerr = result2
+//@     ghost rok = result1
+//@     ghost rdata = result0
+//@   at call finishStream#1
+//@     assert[C16,C09] @protocol !rok && arg1 == rerr && rerr != nil
+//@   at call Unmarshal#1
+//@     assert[C01,C16] @nofab rerr == nil && sameSlice(arg0, rdata)
+//@   ensures[C01,C16] @err rerr != nil ==> result == rerr && count("unmarshal") == 0
+//@   locks st.readMu, st.svr.mu, st.writeMu
+//@   assigns st.halfClosed, cancel(st.cancel), rclosed(st.receiver)
+
+// ----- handler goroutine ------------------------------------------------------
+
+// A registered gRPC handler is opaque user code.
+//@ funcfield (*grpc.MethodDesc).Handler (srv, ctx, dec, interceptor)
+//@   assigns *
+//@   effects event:handler
+//@ funcfield (*grpc.StreamDesc).Handler (srv, stream)
+//@   assigns *
+//@   effects event:handler
+
+//@ func (*tunnelServerStream).serveStream
+//@   at call Handler#1
+//@     assert[C08,C17] @unaryctx arg1 == st.ctx
+//@   at call Handler#2
+//@     assert[C08,C17] @stream id(arg1) == st
+//@   at call finishStream#1
+//@     assert[C13,C14] @finish arg0 == st
+//@   at go#1
+//@     assert[C14] @watcher count("go") == 0
+//@   locks st.writeMu, st.svr.mu, st.readMu
+//@   ensures[C08]         @onehandler count("handler") <= 1
+//@   ensures[C13,C14]     @finishes   count("call:finishStream") == 1
+//@   ensures[C14]         @onewatcher count("go") == 1
+//@   assigns *
+
+// Watcher: when the stream context ends, wake a handler blocked in Recv.
+//@ func (*tunnelServerStream).serveStream$2
+//@   requires st != nil
+//@   at call cancel#1
+//@     assert[C04,C14] @afterdone isClosed(doneOf(st.ctx))
+//@   ensures[C04,C14] @onewait count("blocking") == 1 && count("call:cancel") == 1
+//@   assigns rcancelled(st.receiver)
